@@ -311,7 +311,7 @@ def reflect(root, exmap):
         ntxt.append(f"({cn(nid[id(node)])}, mkNode {cs(node.label)} {KINDC[k]} {lib.copt(par, cn)} "
                     f"{lib.copt(node.detached_parent_path, cs)} {etxt} {cb(bool(node.running))} {cb(bool(node.failed))} "
                     f"{cl(cn(x) for x in kids)} {cl(cn(x) for x in chans)} {cl(cn(x) for x in starting)})")
-    return f"(mkHeap {cl(ntxt)} {cl(ctxt)} {cn(max(len(nid), len(cid)))})", nid
+    return f"(mkHeap {cl(ntxt)} {cl(ctxt)} {cn(max(len(nid), len(cid)))} [])", nid
 
 
 # =========================================================================== drivers
@@ -447,7 +447,8 @@ def shipped_composites(root, exmap):
 
 
 def orphans(shipped):
-    return [[path, [[lab, 1 if ch.parent is None else 0, 1 if ch.detached_parent_path is None else 0] for lab, ch in kids]]
+    return [[path, [[lab, 1 if ch.parent is None else 0, 1 if ch.detached_parent_path is None else 0,
+                     1 if node.children.get(lab) is ch else 0] for lab, ch in kids]]
             for path, node, kids in shipped]
 
 
@@ -478,7 +479,7 @@ def run_flow(case):
         wf.set_run_signals_to_dag_execution()
         exmap = exmap_of(placed)
         heap = reflect(wf, exmap)
-        case["_heap"] = None if heap is None else heap[0]
+        remember(case, None if heap is None else heap[0], None)
         shipped = [p for p, sp in crossing(case)]
         snap = snapshot(wf, [pl for pl in placed if not any(pl[0].startswith(q + "/") for q in shipped)])
         old_kids = shipped_composites(wf, exmap)
@@ -613,8 +614,7 @@ def run_cycle(case):
     X.recovery = None
     exmap = exmap_of(placed)
     heap = reflect(root, exmap)
-    case["_heap"] = None if heap is None else heap[0]
-    case["_target"] = None if heap is None else heap[1][id(X)]
+    remember(case, None if heap is None else heap[0], None if heap is None else heap[1][id(X)])
     placed_x = [(xp, n, sp, ex) for (xp, n, sp, ex) in placed if n is X]
     if root is X:
         placed_x = [("/" + X.label, n, sp, ex) for (xp, n, sp, ex) in placed_x]
@@ -673,14 +673,25 @@ def op_coq(op):
     return {"run": "ORun", "complete": "OComplete", "clear": "OClear"}[op[0]]
 
 
+HEAPS: dict = {}       # case (canonical JSON) -> (reflected initial heap, id of the driven node); filled by run_impl
+
+
+def ckey_of(case):
+    return json.dumps({k: v for k, v in case.items() if not k.startswith("_")}, sort_keys=True)
+
+
+def remember(case, heap, target):
+    HEAPS[ckey_of(case)] = (heap, target)
+
+
 def model_term(case):
-    heap = case.get("_heap")
+    heap, target = HEAPS.get(ckey_of(case), (None, None))
     if heap is None or not modelled(case):
         return None
     mode = os.environ.get("VERIF_C10_MODE", "AsWritten")     # Repaired: only to validate the proposed patch in a scratch worktree
     if case["kind"] == "flow":
         return f"flow_obs {mode} {heap} 0%nat {cb(bool(case.get('probe')) and not is_real(case))}"
-    return f"cycle_obs {mode} {heap} 0%nat {cn(case['_target'])} {cl(op_coq(o) for o in case['ops'])}"
+    return f"cycle_obs {mode} {heap} 0%nat {cn(target)} {cl(op_coq(o) for o in case['ops'])}"
 
 
 def modelled(case):
@@ -848,9 +859,8 @@ def violations(case, obs):
             node_r = find_rendered(tree, root_path, p)
             if node_r is None or node_r[2][1]:
                 continue            # the job failed: nothing was merged, the children are still the old ones
-            now = {k[0] for k in node_r[8]}
-            for lab, par_none, det_none in kids:
-                if not par_none:
+            for lab, par_none, det_none, held in kids:
+                if not par_none and not held:
                     out.append(("stale-child", f"a child object {lab} that {p} no longer holds still names it as parent", p))
         failed = []
         collect_failed(tree, root_path, failed)
@@ -955,7 +965,8 @@ def known(case, obs, verdict):
     if nested_tops:
         if sig == "raised" and subject == "None" and "/wf" in nested_tops:
             return "S15-detached-path-kept"
-        if sig in ("failed", "wrong-output", "not-once") and (under(subject, nested_tops) or subject == "None"):
+        above = any(t.startswith(subject + "/") for t in nested_tops)      # e.g. the local macro that holds the shipped one
+        if sig in ("failed", "wrong-output", "not-once") and (under(subject, nested_tops) or above or subject == "None"):
             return "S15-detached-path-kept"
     if nested_tops and case["kind"] == "cycle" and sig in ("spurious-failure", "failed"):
         return "S15-detached-path-kept"
@@ -1055,7 +1066,9 @@ def gen_cycle(rng):
     if not parentless and rng.random() < 0.6:
         kids.append({"t": "leaf", "k": rng.randint(0, 9), "ins": [["n", [t]]], "ex": None})
     labels = input_labels(x)
-    neg_ok = x["ex"] in BOUNDARY and may_fail(x)
+    # failing inputs only where the failure is the shipped node's own (a failing child that sits on an executor of
+    # its own is swallowed in its callback: C06 / S6, not this property's subject)
+    neg_ok = x["ex"] in BOUNDARY and may_fail(x) and not x.get("inner")
     ops = []
     for _ in range(rng.randint(3, 10)):
         r = rng.random()
